@@ -42,6 +42,7 @@ SecDim == DBase(DW_s)
 VDate(inst) == [t |-> "date", inst |-> inst]
 R2(v, soft) == [v |-> v, soft |-> soft]
 
+Soften(r, s) == R2(r.v, r.soft \/ s)
 \* date (+|-) duration.  b is a value of Eval that is not an error.  (Operator arguments are evaluated once.)
 PlusResult(r, t) == R2(VDate(r), ~DurInRange(t) \/ ~InRange(r))
 PlusAt(a, t) == PlusResult(AddDur(a.inst, t), t)
@@ -57,10 +58,10 @@ DateBin(op, a, b) ==
   IF a.t = "date" /\ b.t = "date" THEN
      (IF op = "sub" THEN R2(VNum(Diff(a.inst, b.inst), SecDim), FALSE) ELSE R2(VErr("generic"), FALSE))
   ELSE IF a.t = "date" THEN DatePlus(a, b, op = "sub")
-  ELSE IF b.t = "date" THEN (IF op = "add" THEN DatePlus(b, a, FALSE) ELSE R2(VUnknown, FALSE))
+  \* duration + date: the property speaks of d + t; read as d + t, or refused
+  ELSE IF b.t = "date" THEN (IF op = "add" THEN Soften(DatePlus(b, a, FALSE), TRUE) ELSE R2(VUnknown, FALSE))
   ELSE R2(BinValue(op, a, b), FALSE)
 
-Soften(r, s) == R2(r.v, r.soft \/ s)
 \* left operand first; the first error wins (b is not evaluated when a is an error)
 DEvBin(op, a, b) == IF a.v.t = "err" THEN a
                     ELSE IF b.v.t = "err" THEN b
